@@ -354,3 +354,15 @@ pub fn vp8_filter_parameters(
         bpred,
     )
 }
+
+/// largest |intermediate value| of the inverse transforms since the last call of
+/// `take_max_transform_value` (reference decoders compute them in 16-bit SIMD lanes; a stream
+/// that makes them exceed 16 bits has no defined reconstruction)
+static MAX_TRANSFORM_VALUE: std::sync::atomic::AtomicU64 = std::sync::atomic::AtomicU64::new(0);
+pub(crate) fn note_transform_values(v: &[i64]) {
+    let m = v.iter().map(|x| x.unsigned_abs()).max().unwrap_or(0);
+    MAX_TRANSFORM_VALUE.fetch_max(m, std::sync::atomic::Ordering::Relaxed);
+}
+pub fn take_max_transform_value() -> u64 {
+    MAX_TRANSFORM_VALUE.swap(0, std::sync::atomic::Ordering::Relaxed)
+}
